@@ -13,7 +13,9 @@ for i, a in enumerate(sys.argv):
 args = [a for a in args if a not in (tier,) and a not in [','.join(also)]]
 os.chdir('/verif')
 for prop in args:
-    dirs = sorted(glob.glob('seeded_pending/%s-*' % prop) + glob.glob('seeded/%s-*' % prop))
+    dirs = sorted(glob.glob('seeded_pending/%s-*' % prop)) or sorted(glob.glob('seeded/%s-*' % prop))
+    if '--all' in sys.argv:
+        dirs = sorted(glob.glob('seeded_pending/%s-*' % prop) + glob.glob('seeded/%s-*' % prop))
     for d in dirs:
         sid = os.path.basename(d)
         caught = []
